@@ -1334,3 +1334,103 @@ void sim_dgemm_(const char *ta, const char *tb, const int *m, const int *n, cons
     free(tmp);
 }
 uint64_t simgomp_dgemm_splits(void) { return g_dgemm_split; }
+
+/* ------------------------------------------------------------------------------ */
+/* entry points a reasonable edit of the code under test could start to use */
+typedef struct {
+    int owner; /* -1 free, else tid */
+    int depth;
+} sim_lock_t;
+static sim_lock_t *lk(void *p) { return (sim_lock_t *)p; }
+void omp_init_lock(void *l) {
+    lk(l)->owner = -1;
+    lk(l)->depth = 0;
+}
+void omp_destroy_lock(void *l) { (void)l; }
+void omp_set_lock(void *l) {
+    int me = omp_get_thread_num();
+    step_point(0);
+    while (lk(l)->owner != -1 && g_cur) {
+        g_st.crit_waits++;
+        g_cur->state = ST_CRIT; /* blocked until some lock / critical section is released */
+        if (g_replaying)
+            g_rp_left = 0;
+        yield_to_sched();
+    }
+    lk(l)->owner = me;
+}
+void omp_unset_lock(void *l) {
+    lk(l)->owner = -1;
+    Team *t = g_team;
+    if (t && t->th)
+        for (int i = 0; i < t->n; i++)
+            if (t->th[i].state == ST_CRIT)
+                t->th[i].state = ST_RUNNABLE; /* waiters re-check their own condition */
+    step_point(0);
+}
+int omp_test_lock(void *l) {
+    step_point(0);
+    if (lk(l)->owner != -1)
+        return 0;
+    lk(l)->owner = omp_get_thread_num();
+    return 1;
+}
+void omp_init_nest_lock(void *l) { omp_init_lock(l); }
+void omp_destroy_nest_lock(void *l) { (void)l; }
+void omp_set_nest_lock(void *l) {
+    int me = omp_get_thread_num();
+    if (lk(l)->owner == me && lk(l)->depth > 0) {
+        lk(l)->depth++;
+        return;
+    }
+    omp_set_lock(l);
+    lk(l)->depth = 1;
+}
+void omp_unset_nest_lock(void *l) {
+    if (--lk(l)->depth <= 0) {
+        lk(l)->depth = 0;
+        omp_unset_lock(l);
+    }
+}
+int omp_test_nest_lock(void *l) {
+    int me = omp_get_thread_num();
+    if (lk(l)->owner == me && lk(l)->depth > 0)
+        return ++lk(l)->depth;
+    if (!omp_test_lock(l))
+        return 0;
+    lk(l)->depth = 1;
+    return 1;
+}
+
+/* single copyprivate */
+static void *g_single_copy_data = NULL;
+void *GOMP_single_copy_start(void) {
+    if (!g_team)
+        return NULL;
+    int first;
+    step_point(0);
+    WorkShare *w = ws_enter(2, &first);
+    int mine = !w->single_taken;
+    w->single_taken = 1;
+    ws_leave(w);
+    if (mine)
+        return NULL; /* this thread executes the block and then calls GOMP_single_copy_end */
+    GOMP_barrier();  /* wait for the executing thread's data */
+    void *d = g_single_copy_data;
+    GOMP_barrier();
+    return d;
+}
+void GOMP_single_copy_end(void *data) {
+    if (!g_team)
+        return;
+    g_single_copy_data = data;
+    GOMP_barrier();
+    GOMP_barrier();
+}
+
+/* ordered: serialised like a critical section (a legal, if conservative, schedule order is
+ * NOT guaranteed here, so a run that reaches it is stopped with 'unsupported') */
+void GOMP_ordered_start(void) { set_err(ERR_UNSUPPORTED, "omp ordered is not modelled by the simulator"); }
+void GOMP_ordered_end(void) {}
+void GOMP_taskwait(void) {}
+void GOMP_taskyield(void) { step_point(0); }
